@@ -19,8 +19,10 @@ RULE = (
     "restricted to the respondents belonging to k, re-encoded as a 2-D cube, and EVERY public "
     "output of partition k must equal that of the 2-D analysis. (sets) tabbook-style, "
     "CA-as-0th and numeric-summary CubeSets are compared with the univariate / bivariate "
-    "cubes they are made of; single-column-filter cubes on a text variable (zz9 leaves out "
-    "the values no filtered respondent gave) are compared with respondent counts. Non-trivial: a missing table category before a valid one, or an "
+    "cubes they are made of; single-column-filter cubes on a text or binned-numeric rows variable "
+    "(zz9 leaves out the values no filtered respondent gave), weighted or not, in every "
+    "response form, are compared with respondent counts and must leave the caller's "
+    "responses usable. Non-trivial: a missing table category before a valid one, or an "
     "MR table with item missingness, or >= 2 partitions that differ."
 )
 BOUNDS = "respondents 0..24, table elements 1..4 (+<=2 missing), rows/cols 1..4 valid, items 1..3"
@@ -222,7 +224,7 @@ def judge_3d(case, rec):
 @st.composite
 def case_set_st(draw):
     kind = draw(st.sampled_from(["tabbook", "tabbook", "ca0", "ca0", "numeric", "single",
-                                 "single", "filtercol"]))
+                                 "single", "filtercol", "filtercol"]))
     n = draw(scen.S.n_st(20))
     if kind == "filtercol":
         # a text variable on the rows of a multitable whose columns are single-column
